@@ -1,5 +1,6 @@
 import AsyncFix.Generated.OrderTable
 import AsyncFix.Model.SessionTypes
+import AsyncFix.Model.OrderObj
 
 /-!
 Tester family (C20): the fabrication functions of `FIXTester` (asyncfix/fix_tester.py) and the few
@@ -121,6 +122,7 @@ structure TState where
   orderCtr : Nat := 0         -- `_order_id`
   execCtr : Nat := 10000      -- `_exec_id`
   registered : List String := []   -- keys of `registered_orders`
+  orderIds : List (List Nat × Nat) := []   -- `_order_ids`: ClOrdID root (code points) ↦ OrderID handed out
   deriving DecidableEq, Repr, Inhabited
 
 /-- arguments of `fix_exec_report_msg` after `order` -/
@@ -218,11 +220,26 @@ def mainChecks (o : OrderView) (a : Args) : List (Site × Bool) :=
    (.pcLeaves, !pc || decide (o.leavesQty.e = v.leaves.e)),
    (.finishedLeavesZero, !finished.contains a.ordStatus || decide (v.leaves.e = 0))]
 
-/-- OrderID of the report (l.331-334): the order's own when it has one, else a fresh counter value -/
+/-- `order.clord_id_root` (`FIXNewOrderSingle.clord_root`, modelled and tied to the code by the OrderObj
+family: `RE_CLORD_ROOT.match`) on the code points of the order's ClOrdID -/
+def rootOf (o : OrderView) : List Nat :=
+  AsyncFix.Model.OrderObj.clordRoot (o.clordId.toList.map Char.toNat)
+
+def lookupRoot (r : List Nat) : List (List Nat × Nat) → Option Nat
+  | [] => none
+  | (r', k) :: rest => if r = r' then some k else lookupRoot r rest
+
+/-- OrderID of the report (l.332-338, fix e62ed38): the order's own when it has one; else the one
+remembered for the order's ClOrdID root; else a fresh counter value, which is remembered. -/
 def orderIdOf (st : TState) (o : OrderView) : TState × Val :=
   match o.orderId with
   | some x => (st, .s x)
-  | none => ({ st with orderCtr := st.orderCtr + 1 }, .c (st.orderCtr + 1))
+  | none =>
+    match lookupRoot (rootOf o) st.orderIds with
+    | some k => (st, .c k)
+    | none =>
+      ({ st with orderCtr := st.orderCtr + 1, orderIds := (rootOf o, st.orderCtr + 1) :: st.orderIds },
+       .c (st.orderCtr + 1))
 
 /-- the tags in the order the helper sets them (all distinct, so no `DuplicatedTagError`) -/
 def buildReport (o : OrderView) (a : Args) (oid : Val) (eid : Nat) : RMsg :=
@@ -238,7 +255,7 @@ def buildReport (o : OrderView) (a : Args) (oid : Val) (eid : Nat) : RMsg :=
 
 /-- `fix_exec_report_msg` (fix_tester.py l.293-421).  `schema` = `self.schema.validate` when a schema was
 given.  Both counters are consumed BEFORE the quantity assertions: a refused call still uses up an
-ExecID (and an OrderID when the order has none). -/
+ExecID (and, when the order has no OrderID and its root is new, an OrderID, which stays remembered). -/
 def fabricate (schema : Option (RMsg → Bool)) (st : TState) (o : OrderView) (a : Args) :
     TState × Except Refusal RMsg :=
   match firstFail (preChecks st o a) with
